@@ -233,7 +233,10 @@ def run_property(prop: str, tier: str, seed: int) -> int:
 
     # ---- witness counters: every deciding monitor must have been reached
     reqs = mod.requirements(tier)
-    missing = {k: (m["counters"].get(k, 0), need) for k, need in reqs.items() if m["counters"].get(k, 0) < need}
+    # a corroborating recorder that was never hit (the implementation reaches the same torch / cvxpy functionality through
+    # another entry point) waives the witnesses that depend on it: the recorder-free form of the oracle still decides
+    waived = sorted(getattr(mod, "waivers", lambda counters: set())(m["counters"]))
+    missing = {k: (m["counters"].get(k, 0), need) for k, need in reqs.items() if m["counters"].get(k, 0) < need and k not in waived}
     inconclusive = list(m["inconclusive"])
     for k, (got, need) in missing.items():
         inconclusive.append(f"deciding monitor/witness '{k}' reached {got} < {need}")
@@ -258,6 +261,7 @@ def run_property(prop: str, tier: str, seed: int) -> int:
         "exhaustive_subspace": getattr(mod, "EXHAUSTIVE_NOTE", {}).get(tier, ""),
         "monitor_hits": dict(sorted(m["counters"].items())),
         "required_witnesses": reqs,
+        "waived_witnesses_recorder_not_hit": waived,
         "not_judged": dict(sorted(m["not_judged"].items())),
         "classes": dict(sorted(m["classes"].items())),
         "worst_residuals": {k: float(f"{v:.4g}") for k, v in sorted(m["maxima"].items())},
